@@ -162,7 +162,9 @@ def to_dihypergraph(data, create_using=None):
         H = empty_dihypergraph(create_using)
         H.add_nodes_from((n, attr) for n, attr in data.nodes.items())
         ee = data.edges
-        H.add_edges_from((ee.dimembers(e), e, deepcopy(attr)) for e, attr in ee.items())
+        # the dict format is unambiguous whatever the type of the edge IDs
+        H.add_edges_from(ee.dimembers(dtype=dict))
+        H.set_edge_attributes({e: deepcopy(attr) for e, attr in ee.items()})
         H._net_attr = deepcopy(data._net_attr)
         if not isinstance(create_using, DiHypergraph):
             return H
